@@ -46,6 +46,9 @@ type Rates struct {
 	ElemNil   int `json:"elemNil"`   // per-mille of list elements that are nil (when the Go type allows)
 	ErrAndVal int `json:"errAndVal"` // per-mille of errors that also return a value
 	// field interceptor (salt "@~around"): per-mille of fields at which it fails / returns (nil, nil) / panics
+	// per-mille of resolver invocations that register a response extension (graphql.RegisterExtension) named
+	// after their path: concurrently resolved fields all write the response's extension map
+	Ext         int `json:"ext,omitempty"`
 	AroundErr   int `json:"aroundErr,omitempty"`
 	AroundBlock int `json:"aroundBlock,omitempty"`
 	AroundPanic int `json:"aroundPanic,omitempty"`
@@ -89,6 +92,7 @@ type Inv struct {
 	// for the stream resolver itself, the values it will send
 	Event  int `json:"event,omitempty"`
 	Events []V `json:"events,omitempty"`
+	Ext    string `json:"ext,omitempty"` // the response extension this invocation registered ("x:<path>#<clock>")
 }
 
 type State struct {
@@ -308,6 +312,11 @@ func (u *U) resolve(ft reflect.Type, obj, goField string, args []reflect.Value) 
 	}
 	o, h := s.decide(path, "")
 	wait(ctx, o)
+	if s.Plan.Rates.Ext > 0 && int((h>>44)%1000) < s.Plan.Rates.Ext {
+		// the key is unique per invocation (a path can be resolved twice: known finding F01)
+		inv.Ext = "x:" + path + "#" + strconv.FormatInt(inv.Start, 10)
+		graphql.RegisterExtension(ctx, inv.Ext, true)
+	}
 	rt := ft.Out(0)
 	zero := reflect.Zero(rt)
 	nilErr := reflect.Zero(errType)
